@@ -212,6 +212,10 @@ func c05(r *core.Report) {
 		}
 		r.Check(n > 0 && bad == "", "C05-NO-DISTURB", core.FnName(fn), p.Pos(fn.Pos()), "when the key is refused only setNext runs: previous/current sessions, remote key and readiness are untouched", "the refusing path disturbs the established session ("+bad+")")
 	}
+	// REJECT-IS-ERROR: Channel.Deliver stops (and hands out nothing) only because onReadySession
+	// reports the refusal as an error
+	r.Rule("C05-REJECT-IS-ERROR", "onReadySession returns a provably non-nil error whenever the key judgement did not succeed", 1)
+	ruleRejectIsError(r, c, "C05-REJECT-IS-ERROR")
 	// REJECT-CLEARS: a refused prospective session must not stay in the prospective slot:
 	// it is keyed and ready, and Channel.Deliver would decrypt and hand out its data.
 	r.Rule("C05-REJECT-CLEARS", "the refusing path of onReadySession empties the prospective slot on every path", 1)
@@ -267,12 +271,16 @@ func c05(r *core.Report) {
 
 	// ---- C05-APP-READY (typestate): the re-check above judges the key only on the not-ready -> ready
 	// edge, so a session must be ready whenever it returns application data
+	r.Rule("C05-NO-HIDDEN-READY", "a session transition that returns an error changes nothing (in particular it does not make the session ready)", 1)
 	r.Rule("C05-APP-READY", "every session transition that returns application data ends in a ready state", 2)
 	if ts := buildTypestate(r); ts != nil {
 		if ts.err != nil {
 			r.Fail("typestate extraction failed: %v", ts.err)
 		} else {
 			ts.checkAppImpliesReady("C05-APP-READY")
+			// the channel judges the key only when a delivery SUCCEEDS and leaves the session ready:
+			// a transition that makes the session ready and then reports an error hides the ready edge
+			ts.checkAtomicFail("C05-NO-HIDDEN-READY")
 		}
 	}
 }
@@ -501,4 +509,26 @@ func ruleKeyWriters(r *core.Report, c *chanSlots, ruleID string) {
 	if n == 0 {
 		r.Fail("%s: no store to Channel.remoteKey found (anchor stale)", ruleID)
 	}
+}
+
+// ruleRejectIsError (shared by C05, C02 and C04): when the prospective session's key is refused,
+// onReadySession must return an error: Channel.Deliver relies on it to stop before `appData = out`, so
+// a nil there hands the refused peer's plaintext to the application under the pinned identity.
+func ruleRejectIsError(r *core.Report, c *chanSlots, ruleID string) {
+	p := r.P
+	fn := c.onReady
+	cut, n, pre := c.keyJudgementCut(fn)
+	ok := n > 0 && pre
+	reached := core.Reach(fn, nil, cut, nil)
+	for _, ret := range core.Returns(fn) {
+		if !reached[ret] {
+			continue
+		}
+		for _, v := range core.ReturnValues(ret, 0) {
+			if !nnShared(p).At(v, ret) {
+				ok = false
+			}
+		}
+	}
+	r.Check(ok, ruleID, core.FnName(fn), p.Pos(fn.Pos()), "every return not preceded by a successful key judgement returns a non-nil error", "onReadySession can return nil although the prospective session's key was refused: Channel.Deliver goes on and hands the data message that completed that session to the application, attributed to the channel's (pinned or empty) remote key")
 }
